@@ -34,6 +34,8 @@ impl Vm {
                 self.run_gc();
                 return Ok(None);
             }
+            #[cfg(feature = "verif")]
+            self.verif_step();
             match self.run_one() {
                 Ok(true) => break,
                 Ok(false) => continue,
@@ -480,8 +482,17 @@ impl Vm {
     ///
     /// 3. A sweep, freeing any vcells not marked as used in step #1.
     pub fn run_gc(&mut self) {
-        if (self.heap.used_size() as f64 / self.heap.capacity() as f64) < 0.75_f64 {
+        #[cfg(feature = "verif")]
+        let forced = self.verif.force_gc;
+        #[cfg(not(feature = "verif"))]
+        let forced = false;
+        if !forced && (self.heap.used_size() as f64 / self.heap.capacity() as f64) < 0.75_f64 {
             return;
+        }
+        #[cfg(feature = "verif")]
+        {
+            self.verif.collections += 1;
+            self.verif_emit(crate::vm::verif::VerifEvent::GcPre { forced });
         }
 
         self.globenv
@@ -500,11 +511,15 @@ impl Vm {
         self.heap.mark(self.ip.0);
         self.heap.mark(self.ep);
         self.heap.sweep();
+        #[cfg(feature = "verif")]
+        self.verif_emit(crate::vm::verif::VerifEvent::GcPost { forced });
 
         // If after GC the heap utilization is still high, grow the heap.
         if (self.heap.used_size() as f64 / self.heap.capacity() as f64) > 0.75_f64 {
             self.heap.grow();
         }
+        #[cfg(feature = "verif")]
+        self.verif_emit(crate::vm::verif::VerifEvent::GcDone { forced });
     }
 
     /// Build Closure Environment
